@@ -14,7 +14,8 @@ Users == {"alice", "bob", "ghost", "empty", "ALICE", "alice_"}
 HasPassword(u) == u \in {"alice", "bob"}
 \* "right": proof of the named user's configured password; "wrong": a wrong password; "asbob": the message names the user
 \* but its proof was computed from bob's name and password (a proof of somebody else's password is no proof)
-Pws == {"right", "wrong", "asbob"}
+\* "near": a wrong password that is the configured one after environment-style expansion ($name, ${name}, $$)
+Pws == {"right", "wrong", "asbob", "near"}
 
 VARIABLES ctx,     \* session -> challenge the service is waiting a proof for (0 = none)
           seen,    \* session -> latest challenge the client received there (0 = none)
